@@ -390,16 +390,28 @@ def _write_case(st, fam, inv, sim, s, v):
 # ------------------------------------------------------------------------------------------------ C18
 def mon_readonly(st, ctx, goodwe):
     OM = goodwe.OperationMode
-    objs = []
+    makers = []
     for tag, serial in ET_SERIALS.items():
         sub = tuple(b for b in BLOCKS if ctx.rng.random() < 0.3)
-        objs.append(('ET ' + tag, ) + make_et(goodwe, serial, ctx.rng.choice([5000, 15000, 29900]), sub, ctx.rng.choice([0, 2]), seed=ctx.rng.randrange(1 << 30)))
-    for tag, serial in DT_SERIALS.items(): objs.append(('DT ' + tag, ) + make_dt(goodwe, serial, ctx.rng.random() < 0.5, seed=ctx.rng.randrange(1 << 30)))
-    for tag, serial in ES_SERIALS.items(): objs.append(('ES ' + tag, ) + make_es(goodwe, serial, ctx.rng.choice(['2314E', '1005A', '0707A']), seed=ctx.rng.randrange(1 << 30)))
+        args = (serial, ctx.rng.choice([5000, 15000, 29900]), sub, ctx.rng.choice([0, 2]))
+        makers.append(('ET ' + tag, lambda a=args: make_et(goodwe, *a, seed=ctx.rng.randrange(1 << 30))))
+    for tag, serial in DT_SERIALS.items():
+        args = (serial, ctx.rng.random() < 0.5)
+        makers.append(('DT ' + tag, lambda a=args: make_dt(goodwe, *a, seed=ctx.rng.randrange(1 << 30))))
+    for tag, serial in ES_SERIALS.items():
+        args = (serial, ctx.rng.choice(['2314E', '1005A', '0707A']))
+        makers.append(('ES ' + tag, lambda a=args: make_es(goodwe, *a, seed=ctx.rng.randrange(1 << 30))))
+    objs = []
+    for name, mk in makers:
+        objs.append((name, ) + mk())                       # a session that starts with monitoring calls
+        inv2, sim2 = mk(); run(inv2.read_device_info())
+        objs.append((name + ' (writes first)', inv2, sim2))    # a session that starts with legitimate writes
     for name, inv, sim in objs:
+        writes_first = name.endswith('(writes first)')
         calls = [('read_device_info', ()), ('read_runtime_data', ()), ('read_runtime_data', ()), ('read_settings_data', ()), ('get_grid_export_limit', ()),
                  ('get_operation_mode', ()), ('get_operation_modes', (True,)), ('get_ongrid_battery_dod', ()), ('read_runtime_data', ())]
         calls += [('read_sensor', (s.id_,)) for s in list(inv.sensors())[:: (9 if not ctx.deep else 1)]]
+        if writes_first: calls = []
         for meth, args in calls:
             n0 = len(sim.log)
             try: run(getattr(inv, meth)(*args))
